@@ -11,7 +11,7 @@ Model: Kap/Model/C02.lean (fork table of task_master.go, from-node matching of s
 All theorems quantify over EVERY well-formed history (`WF`: an id is not started while it is executing), every default retention
 policy, every task id and from-node index; nothing is bounded.
 -/
-import Kap.Proofs.C02Sim
+import Kap.Proofs.C02Closed
 namespace Kap.Props.C02
 open Kap.C02
 
@@ -51,6 +51,13 @@ theorem fork_table_exact (drp : String) (ops : List Op) (hwf : WF ops) (k : Key)
 theorem fork_table_functional (drp : String) (ops : List Op) (hwf : WF ops) (k : Key) :
     (((run drp ops).forks k).map (·.1)).Nodup :=
   (run_inv drp ops hwf).nodup k
+
+/-- **Routing never touches a closed edge.** After every well-formed history no `forkPoint` has collected on an edge that `delFork`
+had closed (in Go: `send on closed channel`, a panic in the forking goroutine that kills the process), and every edge still
+registered is open. -/
+theorem never_sends_on_closed_edge (drp : String) (ops : List Op) (hwf : WF ops) :
+    (run drp ops).sentOnClosed = false ∧ ∀ k id e, (id, e) ∈ (run drp ops).forks k → e ∉ (run drp ops).closed :=
+  ⟨(run_invC drp ops hwf).good, (run_invC drp ops hwf).openE⟩
 
 /-! ### Routing -/
 
@@ -150,6 +157,9 @@ example : WF sample ∧ (writtenIds sample).Nodup ∧
     (run "autogen" sample).delivered "u" 0 = [1] := by decide
 
 example : WF (sample.filter (relevant "t")) ∧ (sample.filter (relevant "t")).length < sample.length := by decide
+
+/-- `never_sends_on_closed_edge` is not vacuous: edges do get closed. -/
+example : (run "autogen" sample).closed.length = 2 ∧ (run "autogen" sample).sentOnClosed = false := by decide
 
 /-- Why `WF` is a hypothesis: `StartTask` on an id that is executing (under another definition) leaves the old edge subscribed,
 so the old incarnation keeps recording under the same node names — the model reproduces this misuse, the spec does not allow it. -/
